@@ -411,6 +411,19 @@ func checkC13(c *Ctx) {
 	c.c13Views(m)
 	// ---- D5
 	c.c13Index(m)
+	// ---- a failed producer's nil result is never used (a panic in the session goroutine
+	// takes the server down)
+	r.Rule("C13/PANIC/nil-result", "in the POP3 session code every use of the value of a (value, error) call as a method receiver or field base — direct, deferred or through a helper — lies where the error is known nil")
+	nBad := 0
+	ordN := map[string]int{}
+	nProd := c.nilResultUses(m.fns, func(use ssa.Instruction, producer *ssa.Call, what string) {
+		nBad++
+		r.Bad("C13/PANIC/nil-result", siteCons(p, use, ordN, "use"), p.InstrPos(use), "the result of %s (%s) is used where the call may have failed: %s, and on failure the result is nil — the session goroutine panics (RETR/TOP of a message another client or the retention scan removed after login ends the whole server)", eng.CalleeName(producer.Common()), p.InstrPos(producer), what)
+	})
+	if nBad == 0 {
+		r.Ok("C13/PANIC/nil-result", "session-code", p.Pos(m.root.Pos()), "%d (value, error) producers in the POP3 package; every receiver/field use of their value is on the err == nil side", nProd)
+	}
+	r.Floor("C13/PANIC/nil-result", "(value, error) producers in pkg/server/pop3", nProd, 1)
 }
 
 func groupBy(evs []tsEvent) map[ssa.Instruction][]tsEvent {
@@ -1335,7 +1348,7 @@ func (m *pop3Model) accessorOf(fn *ssa.Function, send *ssa.Call, idx ssa.Value) 
 				}
 				acc := ""
 				for _, ret := range successReturns(g) {
-					if ic, ok := unwrapIface(ret.Results[0]).(*ssa.Call); ok && ic.Call.IsInvoke() && ic.Call.Value == ssa.Value(g.Params[0]) {
+					if ic, ok := unwrapIface(eng.ReturnResults(ret)[0]).(*ssa.Call); ok && ic.Call.IsInvoke() && ic.Call.Value == ssa.Value(g.Params[0]) {
 						acc = ic.Call.Method.Name()
 					}
 				}
